@@ -191,4 +191,5 @@ def plan(tier, seed):
         return [dict(name='emitter', cfg='gxx', evaluations=0, distinct_nontrivial=0,
                      excluded={k: dict(hits=v, example='excluded by construction in the token emitter') for k, v in excl.items()},
                      note='tokens inside a listed known-finding region are not emitted (they do not compile on the pinned tree); counts per finding')]
-    return dict(units=units, rule=RULE, extra=extra, assumptions=['token meanings are computed by Python integers and fractions.Fraction in the emitter; tokens are drawn from VERIF_SEED'])
+    from .common import with_fuzz
+    return with_fuzz(dict(units=units, rule=RULE, extra=extra, assumptions=['token meanings are computed by Python integers and fractions.Fraction in the emitter; tokens are drawn from VERIF_SEED']), 'C15', 'props/C15.h', rt[:6], tier, 60000, 3000000, max_len=514, chunk=3)
